@@ -240,6 +240,11 @@ for _r in _R:
         {"min_rate": "0", "txs": [_tx(0, _wa(_cv(10, "100000000000000000"))), _tx(0, _wa({"k": "edit", "op": 10, "rate": _r}), dt=86400)]},
         {"min_rate": "0", "txs": [_tx(1, _cv(1, _r), ext="evm")]},
         {"min_rate": "0", "txs": [_tx(1, _cv(1, _r), ext="other")]},
+        {"min_rate": "0", "txs": [_tx(1, _ex(1, {"k": "send", "from": 1}), _cv(1, _r))]},
+        {"min_rate": "0", "txs": [_tx(1, {"k": "send", "from": 1}, _cv(1, _r))]},
+        {"min_rate": "0", "txs": [_tx(1, _ex(1, _ex(1, {"k": "send", "from": 1}), _cv(1, _r)))]},
+        {"min_rate": "0", "txs": [_tx(0, _wa(_ex(10, {"k": "send", "from": 10}), _cv(10, _r)))]},
+        {"min_rate": "0", "txs": [_tx(1, _cv(1, "100000000000000000")), _tx(1, _ex(1, {"k": "send", "from": 1}), {"k": "edit", "op": 1, "rate": _r}, dt=86400)]},
     ]
 
 MANIFEST = {
